@@ -4,6 +4,7 @@ fresh process under strace, optionally with one injected fault."""
 import base64
 import os
 import random
+import time
 import shutil
 
 import tracelib as tl
@@ -90,6 +91,8 @@ class Scenario:
                     f.write(b"totp: Ym9i\n")
             if kind == "tmp-residue":
                 open(os.path.join(st.base, ".tmp", "leftover"), "wb").write(b"residue")
+                open(os.path.join(st.base, ".tmp", "ancient"), "wb").write(b"left by a writer killed long ago")
+                os.utime(os.path.join(st.base, ".tmp", "ancient"), (time.time() - 40 * 86400, time.time() - 40 * 86400))
                 # left-overs under names an implementation might derive from the user name, longer than
                 # anything an update writes: they must neither be read nor shine through
                 stale = b"".join(b"stale%03d: %s\n" % (i, b"z" * 50) for i in range(60))
@@ -213,7 +216,8 @@ def gen_cases(prop, seed, tier, want_faults=False, want_bad_names=False, fault_o
             "nolf": [("update", "carol", "pw2"), ("setadmin", "carol", True)],
             "binary": [("update", "carol", "pw2")],
             "big": [("update", "carol", "pw2")],
-            "tmp-residue": [("add", "dave", "davepw", False), ("update", "alice", "pw9")],
+            "tmp-residue": [("add", "dave", "davepw", False), ("update", "alice", "pw9"), ("check",), ("list",), ("listfull",),
+                            ("auth", "alice", "alicepw"), ("exists", "alice")],
             "no-tmp": [("add", "dave", "davepw", False), ("update", "alice", "pw9")],
             "empty": [("init", "root", "rootpw"), ("add", "first", "pw", False), ("check",)],
         }
